@@ -40,7 +40,11 @@ def expression_ranges(text):
                 store = isinstance(getattr(node, "ctx", None), (ast.Store, ast.Del))
                 pure = not store and not self.in_while_test and not self.in_target and not (names & bound_here) \
                     and not has_walrus and not has_yield and not self.in_header \
-                    and not isinstance(node, (ast.Starred, ast.Lambda, ast.JoinedStr, ast.FormattedValue, ast.Slice))
+                    and not isinstance(node, (ast.Starred, ast.Lambda, ast.JoinedStr, ast.FormattedValue, ast.Slice)) \
+                    and not (names & {"super", "__class__"})
+                # (zero-argument super() is compiler magic tied to the text of the enclosing method: moving the name
+                # elsewhere changes its meaning - not a "side-effect-free selection" in the property's sense; such
+                # selections are still judged for compile-or-refuse)
                 out.append((node.lineno, cc(node.lineno, node.col_offset), node.end_lineno, cc(node.end_lineno, node.end_col_offset),
                             {"pure_once": pure, "kind": type(node).__name__,
                              "value": not store and not isinstance(node, (ast.Starred, ast.Yield, ast.YieldFrom, ast.Await, ast.Slice)) and not self.in_target,
